@@ -30,8 +30,11 @@ OfKind(e) == {d \in Range(WorldOf(Range(e.mix))) : d.kind = e.kind}
 Expected(e) == {[path |-> c.path, pts |-> c.pts, oris |-> c.oris, vels |-> c.vels] : c \in OfKind(e)}
 RuleOf(e, x) == (CHOOSE c \in OfKind(e) : c.path = x[1]).vrule
 
-PtOk(e, x)  == x[5] = 1 /\ (e.mode = "flt" \/ <<x[3], x[4]>> = Image(e.rot, e.t, P2(x)))
-OriOk(e, o) == o[6] = 1 /\ (e.mode = "flt" \/ <<o[4], o[5]>> = P2(AngleSum(P3(o), e.rot)))
+(* op "tr2": the object was moved by (t, rot) and then by (t2, rot); numerators are over den^2 resp. d * den^2 *)
+PtOk(e, x)  == x[5] = 1 /\ (e.mode = "flt" \/ <<x[3], x[4]>> = (IF e.op = "tr2" THEN Image2(e.rot, e.t, e.t2, P2(x))
+                                                                   ELSE Image(e.rot, e.t, P2(x))))
+OriOk(e, o) == o[6] = 1 /\ (e.mode = "flt" \/ <<o[4], o[5]>> = P2(IF e.op = "tr2" THEN AngleSum2(P3(o), e.rot)
+                                                                      ELSE AngleSum(P3(o), e.rot)))
 AllUn(x)    == (\A i \in DOMAIN x[2] : x[2][i][6] = 1) /\ (\A i \in DOMAIN x[3] : x[3][i][7] = 1)
                /\ (\A i \in DOMAIN x[4] : x[4][i][6] = 1)
 (* velocity of a component in scope: turned with the motion (point mass) or untouched (the state stores an orientation) *)
@@ -67,6 +70,7 @@ ClauseCall(e) ==
 Clause(e) ==
     CASE e.op = "call"    -> ClauseCall(e)
       [] e.op = "tr"      -> ClauseTr(e)
+      [] e.op = "tr2"     -> IF e.t2 # Partner(e.t) THEN "driver/sequence" ELSE ClauseTr(e)
       [] e.op = "undo"    -> ClauseUndo(e)
       [] e.op = "derived" -> IF \E i \in DOMAIN e.vals : e.vals[i][2] # 1 THEN "C05.Derived/" \o e.q ELSE ""
       [] OTHER -> "machinery/unknown-op"
